@@ -109,7 +109,16 @@ fn case<G: CurveTag>(bytes: &[u8], col: &mut Collector, kmax: usize, force: Opti
     let b: Vec<Fr<G>> = gen_vec(&mut ch, n, bkind);
     let one = Fr::<G>::one();
     let (gf, hf): (Vec<Fr<G>>, Vec<Fr<G>>) = match fkind {
-        0 => ((0..n).map(|_| ScalarSpec::gen_nonzero(&mut ch).to_f()).collect(), (0..n).map(|_| ScalarSpec::gen_nonzero(&mut ch).to_f()).collect()),
+        0 => {
+            // both random; or one side all-one; or single non-unit entries among ones
+            let sub = ch.below(5);
+            let mut side = |ch: &mut Choices, unit: bool, sparse: bool| -> Vec<Fr<G>> {
+                (0..n).map(|_| if unit || (sparse && !ch.chance(40)) { one } else { ScalarSpec::gen_nonzero(ch).to_f() }).collect()
+            };
+            let g = side(&mut ch, sub == 2, sub == 3);
+            let h = side(&mut ch, sub == 1, sub == 4);
+            (g, h)
+        }
         1 => (vec![one; n], vec![one; n]),
         2 => {
             let y: Fr<G> = ScalarSpec::Rand(seed).to_f();
